@@ -105,37 +105,61 @@ func c11InProcess(c *fw.Ctx) {
 		if !c.Mine(si) {
 			continue
 		}
-		for _, v := range vals {
-			c.Eval(1)
-			ch := sub.Build()
-			remote, local := 0, 0
-			ch.OnValueUpdateFromConn(func(net.Conn, *characteristic.Characteristic, interface{}, interface{}) { remote++ })
-			ch.OnValueUpdate(func(*characteristic.Characteristic, interface{}, interface{}) { local++ })
-			before := ch.Value
-			cas := c11Case{Subject: sub.Name, Path: "in-process", Value: v.Label}
-			if p := guard(func() { ch.UpdateValueFromConnection(v.V, nullConn{}) }); p != nil {
-				continue // a panic is C12's business
+		for _, pre := range []string{"", "local-same", "local-ignored", "remote-read", "remote-read-getter", "remote-same"} {
+			for _, v := range vals {
+				if pre != "" && !c.Thorough() && len(v.Label) > 3 && v.Label != "true" && v.Label != "str:abc" {
+					continue // quick: the prefixed histories use the short values only
+				}
+				c.Eval(1)
+				ch := sub.Build()
+				remote, local := 0, 0
+				ch.OnValueUpdateFromConn(func(net.Conn, *characteristic.Characteristic, interface{}, interface{}) { remote++ })
+				ch.OnValueUpdate(func(*characteristic.Characteristic, interface{}, interface{}) { local++ })
+				cas := c11Case{Subject: sub.Name, Path: "in-process", Value: v.Label}
+				// a first event that the characteristic ignores or that changes nothing must not "arm" anything
+				switch pre {
+				case "local-same":
+					guard(func() { ch.UpdateValue(ch.Value) })
+				case "local-ignored":
+					guard(func() { ch.UpdateValue("NaN") })
+					guard(func() { ch.UpdateValue([]interface{}{1.0}) })
+				case "remote-read":
+					guard(func() { ch.GetValueFromConnection(nullConn{}) })
+				case "remote-read-getter":
+					cur := ch.Value
+					ch.OnValueGet(func() interface{} { return cur })
+					guard(func() { ch.GetValueFromConnection(nullConn{}) })
+					ch.OnValueGet(nil)
+				case "remote-same":
+					guard(func() { ch.UpdateValueFromConnection(ch.Value, nullConn{}) })
+				}
+				remote, local = 0, 0
+				before := ch.Value
+				cas.What = pre
+				if p := guard(func() { ch.UpdateValueFromConnection(v.V, nullConn{}) }); p != nil {
+					continue // a panic is C12's business
+				}
+				pk := permKey(ch)
+				if !ch.IsWritable() {
+					if !reflect.DeepEqual(ch.Value, before) {
+						c.Report("write-without-pw-changed-value/"+ch.Format, fmt.Sprintf("%s %s: a remote write of %s changed the value from %v to %v", sub.Name, pk, v.Label, before, ch.Value), cas)
+					}
+					if remote+local > 0 {
+						c.Report("write-without-pw-invoked-callback/"+ch.Format, fmt.Sprintf("%s %s: a remote write of %s invoked %d application callbacks", sub.Name, pk, v.Label, remote+local), cas)
+					}
+				}
+				if !ch.IsReadable() {
+					// local updates too must not store a value
+					guard(func() { ch.UpdateValue(v.V) })
+					if ch.Value != nil {
+						c.Report("value-stored-without-pr/"+ch.Format, fmt.Sprintf("%s %s: stores the value %v although it has no read permission", sub.Name, pk, ch.Value), cas)
+					}
+					if j, err := json.Marshal(ch); err == nil && bytes.Contains(j, []byte(`"value"`)) {
+						c.Report("value-revealed-without-pr/"+ch.Format, fmt.Sprintf("%s %s: the attribute database entry carries a value", sub.Name, pk), cas)
+					}
+				}
+				c.Class("in-process:" + ch.Format + pk)
 			}
-			pk := permKey(ch)
-			if !ch.IsWritable() {
-				if !reflect.DeepEqual(ch.Value, before) {
-					c.Report("write-without-pw-changed-value/"+ch.Format, fmt.Sprintf("%s %s: a remote write of %s changed the value from %v to %v", sub.Name, pk, v.Label, before, ch.Value), cas)
-				}
-				if remote+local > 0 {
-					c.Report("write-without-pw-invoked-callback/"+ch.Format, fmt.Sprintf("%s %s: a remote write of %s invoked %d application callbacks", sub.Name, pk, v.Label, remote+local), cas)
-				}
-			}
-			if !ch.IsReadable() {
-				// local updates too must not store a value
-				guard(func() { ch.UpdateValue(v.V) })
-				if ch.Value != nil {
-					c.Report("value-stored-without-pr/"+ch.Format, fmt.Sprintf("%s %s: stores the value %v although it has no read permission", sub.Name, pk, ch.Value), cas)
-				}
-				if j, err := json.Marshal(ch); err == nil && bytes.Contains(j, []byte(`"value"`)) {
-					c.Report("value-revealed-without-pr/"+ch.Format, fmt.Sprintf("%s %s: the attribute database entry carries a value", sub.Name, pk), cas)
-				}
-			}
-			c.Class("in-process:" + ch.Format + pk)
 		}
 	}
 }
@@ -353,6 +377,44 @@ func c11HTTP(c *fw.Ctx) {
 			c.Report("event-without-ev/"+ch.Format, fmt.Sprintf("%s %s: an EVENT was sent for a characteristic without event permission: %s", e.name, permKey(ch), trunc(evs[0].Body, 80)), c11Case{Subject: e.name, Path: "http", What: "event"})
 		}
 	}
+	// 5. observable but not readable: a subscriber's EVENT after somebody else's write must not carry the value
+	for i, e := range ents {
+		ch := e.ch
+		if !ch.IsObservable() || ch.IsReadable() {
+			continue
+		}
+		c.Eval(1)
+		if _, _, err := put(fmt.Sprintf(`{"characteristics":[{"aid":%d,"iid":%d,"ev":true}]}`, e.acc.ID, ch.ID)); err != nil {
+			c.Infra("subscribe failed: " + err.Error())
+			return
+		}
+		_, js := change(ch, i+21)
+		secret := strings.Trim(js, `"`)
+		if ch.IsWritable() {
+			k2.Do("PUT", "/characteristics", refctl.CTJSON, []byte(fmt.Sprintf(`{"characteristics":[{"aid":%d,"iid":%d,"value":%s}]}`, e.acc.ID, ch.ID, js)))
+		}
+		nv, _ := change(ch, i+22)
+		ch.UpdateValue(nv)
+		_, evs, err := k.Do("GET", "/characteristics?id=1.2", "", nil)
+		if err != nil {
+			c.Infra("barrier failed: " + err.Error())
+			return
+		}
+		for _, ev := range evs {
+			var body struct {
+				Characteristics []struct {
+					Value interface{} `json:"value"`
+				} `json:"characteristics"`
+			}
+			json.Unmarshal(ev.Body, &body)
+			for _, ce := range body.Characteristics {
+				if ce.Value != nil {
+					c.Report("event-reveals-value-without-pr/"+ch.Format, fmt.Sprintf("%s %s: an EVENT carries the value %v of a characteristic without read permission (written value was %s)", e.name, permKey(ch), ce.Value, secret), c11Case{Subject: e.name, Path: "http", What: "event-value"})
+				}
+			}
+		}
+		c.Class("http-event-unreadable:" + ch.Format)
+	}
 	c.Sample(map[string]interface{}{"characteristics_over_http": len(ents)})
 }
 
@@ -370,7 +432,7 @@ func init() {
 	fw.Register(&fw.Check{
 		ID:    "C11",
 		Level: "exploration",
-		Rule:  "every characteristic constructor found in /repo with its own permissions plus the five generic constructors under all 8 subsets of {pr,pw,ev}. In-process: every subject × ≈40 JSON-like values through UpdateValueFromConnection (and UpdateValue for write-only ones): without pw value and all callback counters unchanged; without pr no value stored or encoded. HTTP (real transport, verified controller): per characteristic a changing valid PUT, a GET, ev=true, value+ev in one entry, then a local and a remote change followed by a barrier request: without pw nothing changes and no callback fires; without pr no value is stored or revealed; without ev the subscription entry is answered with a non-zero status and no EVENT follows. distinct_nontrivial = distinct (path, format, permission set) classes",
+		Rule:  "every characteristic constructor found in /repo with its own permissions plus the five generic constructors under all 8 subsets of {pr,pw,ev}. In-process: every subject × ≈40 JSON-like values through UpdateValueFromConnection, alone and after each of five first events that change nothing (local update with the same value, ignored local updates, a remote read with and without a read callback, a remote write of the current value), (and UpdateValue for write-only ones): without pw value and all callback counters unchanged; without pr no value stored or encoded. HTTP (real transport, verified controller): per characteristic a changing valid PUT, a GET, ev=true, value+ev in one entry, then a local and a remote change followed by a barrier request: without pw nothing changes and no callback fires; without pr no value is stored or revealed; without ev the subscription entry is answered with a non-zero status (also for non-boolean spellings of the flag) and no EVENT follows; an EVENT for an observable characteristic without pr carries no value. distinct_nontrivial = distinct (path, format, permission set) classes",
 		Run:   c11Run,
 		Replay: func(c *fw.Ctx, raw json.RawMessage) {
 			var cas c11Case
